@@ -1,0 +1,12 @@
+//go:build !verif
+
+// Package verifhook provides no-op instrumentation points. With the "verif"
+// build tag the points call into a handler installed by the verification
+// harness; without it they compile to nothing.
+package verifhook
+
+// Point marks a step of interest (scheduling / crash point). No-op.
+func Point(site string, args ...any) {}
+
+// Fault lets the harness inject an error at a step. Always nil.
+func Fault(site string, args ...any) error { return nil }
